@@ -51,7 +51,7 @@ theorem verify_spec {T : Nat → Option Block} {s : St} {b : Block} {c : List Bl
         · exact ⟨rfl, rfl, inv, rfl, by intro h; cases h⟩
         · refine ⟨rfl, rfl, ⟨inv.chain, inv.latest, inv.cache, inv.fut, inv.fromT⟩, rfl, ?_⟩
           intro _
-          simp [St.setMem]
+          exact contains_lruAdd _ _
 
 /-! ### `removeFromCommonAncestor` -/
 
@@ -148,19 +148,15 @@ theorem insertBlock_spec {T : Nat → Option Block} {s : St} {b y : Block} {c : 
     (hh : y.height < b.height) (hn : s.disk.blocks b.hash = none) (hT : T b.hash = some b)
     (hv : s.mem.verified.contains b.hash = true) (hfresh : ∀ z ∈ c, ∀ t ∈ b.txs, t ∉ z.txs) :
     Post T (insertBlock cont s b).1 := by
-  unfold insertBlock
-  simp only
-  have hmem : (insertA s b).mem = s.mem := by simp [insertA]
-  rw [hmem, hv]
-  simp only [Bool.not_true, Bool.false_and]
-  have hAB := insertAB_spec ha inv hp hy hh hn hT hfresh
+  rw [insertBlock_hit cont s b hv]
+  have hAB := insertAB_spec (s := touchVerified s b) ha (touchVerified_inv inv) hp hy hh hn hT hfresh
   have hrec : ∀ d, RecTo d c → RecIn T d := fun d r => ⟨c, r, inv.fromT⟩
-  cases hf : (insertB (insertA s b) b).mem.future b.hash with
+  cases hf : (insertB (insertA (touchVerified s b) b) b).mem.future b.hash with
   | none =>
-    simp only [Bool.false_eq_true, if_false]
+    simp only
     exact hAB.mono (fun d m p => ⟨b :: c, p.1⟩) hrec
   | some f =>
-    simp only [Bool.false_eq_true, if_false]
+    simp only
     refine Out.bind hAB (hfr f) ?_ hrec
     intro ha' p
     have := p.1.fut _ _ hf
